@@ -18,6 +18,8 @@ ALPHABET = [
     ("append", "append", ("it",), {"twice": True}),
     ("get", "get", (), {}),
     ("nothing", "nothing", (), {}),
+    ("tags", "tags", (), {}),
+    ("seal", "seal", (), {}),
     ("fail_value", "fail", ("value",), {}),
     ("fail_key", "fail", (), {"kind": "key"}),
     ("fail_pyro_timeout", "fail", ("pyro-timeout",), {}),
